@@ -85,7 +85,7 @@ func main() {
 		{"C17", []string{"index.Range.IsEmpty", "index.Range.IsNil", "index.Range.Intersect", "index.rangeIndex.encodeRange", "index.rangeIndex.IterateRange", "index.rangeIndex.Iterate"}},
 		{"C16 C01", []string{"query.NotCriteria.Satisfy", "query.BinaryCriteria.Satisfy", "query.UnaryCriteria.Satisfy", "query..getFieldOrValue", "query.UnaryCriteria.compare",
 			"query.UnaryCriteria.exist", "query.UnaryCriteria.eq", "query.UnaryCriteria.in", "query.UnaryCriteria.contains", "query.UnaryCriteria.like", "query..IsField",
-			"query..and", "query..or", "query..not", "query..newCriteria", "query.field.Neq", "query.field.NotExists", "query.field.In", "query.field.Contains", "query.field.Eq",
+			"query..and", "query..or", "query..not", "query..newCriteria", "query.field.Neq", "query.field.NotExists", "query.field.In", "query.field.Contains", "query.field.Eq", "query.field.Exists", "query.field.IsNil", "query.field.IsTrue", "query.field.IsFalse", "query.field.IsNilOrNotExists", "query.field.Gt", "query.field.GtEq", "query.field.Lt", "query.field.LtEq", "query.field.Like", "query..Field", "query.NotCriteria.Not", "query.NotCriteria.And", "query.NotCriteria.Or", "query.BinaryCriteria.Not", "query.BinaryCriteria.And", "query.BinaryCriteria.Or", "query.UnaryCriteria.Not", "query.UnaryCriteria.And", "query.UnaryCriteria.Or", "query.Query.Where", "query.Query.MatchFunc", "query..NewQuery", "query.Query.copy",
 			"clover.CriteriaNormalizeVisitor.VisitUnaryCriteria", "clover.CriteriaNormalizeVisitor.VisitBinaryCriteria", "clover.CriteriaNormalizeVisitor.VisitNotCriteria",
 			"clover..normalizeOperand", "clover..isFieldReference", "clover..normalizeCriteria", "query.Query.satisfy"}},
 		{"C01", []string{"clover.DB.FindAll", "clover.DB.IterateDocs", "clover.DB.iterateDocs", "clover.iterNode.iterateIndex", "clover.iterNode.iterateFullCollection"}},
